@@ -29,6 +29,10 @@ func c14Body(e *Env) {
 		cfg.Prealloc = rng.Intn(3) == 0
 		cfg.Mix = []string{"balanced", "overwrite", "alloc", "fragment", "big"}[rng.Intn(5)]
 		cfg.Overflow = false
+		if rng.Intn(3) == 0 {
+			cfg.Variant2 = 1 + rng.Intn(5)
+			cfg.Prealloc2 = rng.Intn(2) == 0
+		}
 		c.Cfg = &cfg
 	}
 	cfg := *c.Cfg
@@ -66,9 +70,16 @@ func c14Body(e *Env) {
 		return
 	}
 
-	// --- the size changing open
-	oldMax := cfg.MaxSize
-	ps := cfg.PageSize
+	// --- the size changing open(s)
+	var extentBefore int64
+	var ps int
+	var err error
+	var what string
+	var newMaxRounded int
+	firstOld := cfg.MaxSize
+	changeSize := func(variant int, pNew *int, prealloc bool) bool {
+	oldMax := r.Cfg.MaxSize
+	ps = cfg.PageSize
 	snap := txfile.VerifAllocSnapshot(r.F)
 	usedBytes := int(snap.DataEnd) * ps
 	if int(snap.MetaEnd)*ps > usedBytes {
@@ -80,9 +91,9 @@ func c14Body(e *Env) {
 	if n := len(snap.DataFree); n > 0 && snap.DataFree[n-1].ID+PageID(snap.DataFree[n-1].Count) == snap.DataEnd {
 		e.Probe("free_region_at_end")
 	}
-	newMax := c.Cfg.NewMaxSize
-	if !c.Explicit || newMax == 0 && cfg.Variant != 1 {
-		switch cfg.Variant {
+	newMax := *pNew
+	if !c.Explicit || newMax == 0 && variant != 1 {
+		switch variant {
 		case 1:
 			newMax = 0
 		case 2:
@@ -101,7 +112,7 @@ func c14Body(e *Env) {
 		if rng.Intn(4) == 0 && newMax > 0 {
 			newMax += 100 // not a multiple of the page size: rounded down
 		}
-		c.Cfg.NewMaxSize = newMax
+		*pNew = newMax
 	}
 	var capBefore int
 	if oldMax > 0 {
@@ -109,18 +120,18 @@ func c14Body(e *Env) {
 		capBefore, err = capacityProbe(r, 1<<20)
 		if err != nil {
 			e.Fail("C14", "probe", "capacity probe failed: %v", err)
-			return
+			return false
 		}
 	}
 	if err := r.F.Close(); err != nil {
 		e.Fail("C14", "close-error", "File.Close failed: %v", err)
-		return
+		return false
 	}
 	r.F = nil
 	initImg := d.Snapshot()
 	logStart := len(d.Log)
 	// extent = physical size or allocated area (pages may be allocated but not written yet)
-	extentBefore := int64(len(d.Content()))
+	extentBefore = int64(len(d.Content()))
 	if int64(usedBytes) > extentBefore {
 		extentBefore = int64(usedBytes)
 	}
@@ -128,18 +139,17 @@ func c14Body(e *Env) {
 	o := r.Options()
 	o.Flags |= txfile.FlagUpdMaxSize
 	o.MaxSize = uint64(newMax)
-	o.Prealloc = cfg.Prealloc
+	o.Prealloc = prealloc
 	o.InitMetaArea = 0 // creation-time option; would only make Options.Validate reject small limits
-	var err error
 	if e.Guard("C14", "Open with FlagUpdMaxSize", func() { err = r.OpenWith(o) }) {
-		return
+		return false
 	}
-	what := fmt.Sprintf("open with FlagUpdMaxSize (max size %d -> %d, prealloc=%v)", oldMax, newMax, cfg.Prealloc)
+	what = fmt.Sprintf("open with FlagUpdMaxSize (max size %d -> %d, prealloc=%v)", oldMax, newMax, prealloc)
 	if err != nil {
 		e.Fail("C14", "reopen-error", "%s failed: %v", what, err)
-		return
+		return false
 	}
-	newMaxRounded := newMax / ps * ps
+	newMaxRounded = newMax / ps * ps
 	r.Cfg.MaxSize = newMaxRounded
 	switch {
 	case newMaxRounded == oldMax:
@@ -156,7 +166,7 @@ func c14Body(e *Env) {
 	if newMax > 0 && newMaxRounded < usedBytes {
 		e.Probe("below_usage")
 	}
-	if cfg.Prealloc {
+	if prealloc {
 		e.Probe("prealloc")
 	}
 	e.Res.Nontrivial = newMaxRounded != oldMax
@@ -165,24 +175,24 @@ func c14Body(e *Env) {
 	r.CheckLocksIdle("right after " + what)
 	r.VerifyAll("right after " + what) // BeginReadonly must not block
 	if e.Failed() {
-		return
+		return false
 	}
 	// Begin must not block either; growing adds exactly the new pages
 	capAfter, perr := capacityProbe(r, 1<<20)
 	if perr != nil {
 		e.Fail("C14", "probe", "%s: write transaction failed: %v", what, perr)
-		return
+		return false
 	}
 	if oldMax > 0 && newMaxRounded > oldMax {
 		want := (newMaxRounded - oldMax) / ps
 		if capAfter-capBefore != want {
 			e.Fail("C14", "grow-capacity", "%s: %d pages were allocatable before and %d after, expected exactly %d additional pages", what, capBefore, capAfter, want)
-			return
+			return false
 		}
 	}
 	r.CheckPartition()
 	if e.Failed() {
-		return
+		return false
 	}
 
 	// --- crash images inside the size-changing open
@@ -223,9 +233,27 @@ func c14Body(e *Env) {
 		e.Res.Evals += n
 	}
 	if e.Failed() || c.Crash != nil {
-		return
+		return false
 	}
 
+	return true
+	}
+	if !changeSize(cfg.Variant, &c.Cfg.NewMaxSize, cfg.Prealloc) {
+		return
+	}
+	if c.Cfg.Variant2 > 0 && c.Crash == nil {
+		// a second size change directly on top of the first one
+		e.Probe("second_size_change")
+		firstExtent := extentBefore
+		if !changeSize(c.Cfg.Variant2, &c.Cfg.NewMaxSize2, c.Cfg.Prealloc2) {
+			return
+		}
+		if firstExtent > extentBefore {
+			extentBefore = firstExtent
+		}
+	}
+	oldMax := firstOld
+	_ = oldMax
 	// --- further history on the reopened file
 	g2 := NewGen(r, e.Rng("ops2"), cfg.Mix)
 	g2.NoOverflow = true
@@ -267,5 +295,5 @@ func c14Body(e *Env) {
 	}
 	r.VerifyAll("after the later plain open")
 	r.CheckPartition()
-	e.Res.Sig = sigOf(r, uint64(ps), uint64(oldMax), uint64(newMax), fnv64(fmt.Sprint(ops1)))
+	e.Res.Sig = sigOf(r, uint64(ps), uint64(oldMax), uint64(newMaxRounded), uint64(c.Cfg.Variant2), fnv64(fmt.Sprint(ops1)))
 }
